@@ -541,7 +541,8 @@ def correspondence(prop, tier, seed, drv, SI, stats):
             if k[1] is None:
                 continue
             a = mk(SI, k)
-            m = norm_model(drv.ask(["zext", si_sx(k), k[0] + 1]))
+            # the real object is normalised on construction: the model gets what the object holds
+            m = norm_model(drv.ask(["zext", [a.bits, a.stride, a.lower_bound, a.upper_bound, 0], k[0] + 1]))
             r = real_res(lambda: a.zero_extend(k[0] + 1))
             stats["corr_zext"] += 1
             if m != r:
